@@ -156,8 +156,17 @@ def run(chk, tier):
             chk.ob("R3", "counter count_stuck|+1 exactly when the stuck test fires", okcs, "update %s" % T.show(ncs, 3), where=where)
             nds = nxt_of(ds)
             inc = T.sub(nds, ds)
-            okds = inc.op == "uabs" or (inc.op == "aff" and any(a.op == "uabs" for a in inc.args))
-            chk.ob("R3", "delta_sum|+= |delta - previous delta|", okds, "increment %s" % T.show(inc, 3), where=where)
+            # the variable that remembers the previous probe's delta: the 32-bit loop variable whose next value is this probe's delta
+            prev = [t for n, wh, init, t, rng in rec.vars if isinstance(t, T.T) and t.w == 32 and isinstance(nxt.get(n), T.T)
+                    and LP.simplify_under(ev, s3, nxt[n]) is d32]
+            okds = False
+            a64 = T.sext(d32, 64)
+            for p_ in prev:
+                b64 = T.sext(p_, 64)
+                if inc is T.uabs(T.sub(a64, b64)) or inc is T.uabs(T.sub(b64, a64)):
+                    okds = True
+            chk.ob("R3", "delta_sum|+= |delta - previous delta|, the exact (64-bit) difference of the two 32-bit deltas", okds,
+                   "increment %s; variable(s) holding the previous delta: %s" % (T.show(inc, 2), [T.show(x, 1) for x in prev][:3]), where=where)
     # ---- R1: interval of the Ok value
     s_ok = st.fork()
     s_ok.assume = ()
